@@ -14,7 +14,7 @@
 (* (main / unloc / haplotig) and the chromosome it belongs to: the C10 predicates use only that.   *)
 (***************************************************************************************************)
 EXTENDS Rows, TLC, Json
-CONSTANTS NScen, MaxChr, Haps, Prefix
+CONSTANTS NScen, MaxChr, Haps, Prefix, FirstHap
 
 R(S) == RandomElement(S)
 MainLens == {30, 40, 40, 50, 60, 70}
@@ -26,7 +26,9 @@ Perm5(x) == R({<<1, 2, 3, 4, 5>>, <<5, 4, 3, 2, 1>>, <<2, 1, 4, 3, 5>>, <<3, 5, 
 RandChr(x) == [L |-> R(MainLens), nunl |-> R({0, 0, 1, 2, 3}), unl |-> <<R(UnlLens), R(UnlLens), R(UnlLens)>>, nht |-> R({0, 0, 1}), ht |-> R(HtLens),
                perm |-> Perm5(x), rev |-> <<R({1, -1}), R({1, -1}), R({1, -1}), R({1, -1}), R({1, -1})>>,
                nm |-> IF Haps = 1 THEN R({"", "", "", "", "X", "W", "B1", "Z"}) ELSE ""]
-RandGroup(x) == [first |-> RandChr(x), nhom |-> IF Haps = 1 THEN 0 ELSE R({1, 1, 1, 2, 0}), homs |-> <<RandChr(x), RandChr(x)>>]
+\* gnm: in two-haplotype maps a sex / B chromosome tag is carried by the chromosome of the first haplotype AND its (single) homologue
+RandGroup(x) == [first |-> RandChr(x), nhom |-> IF Haps = 1 THEN 0 ELSE R({1, 1, 1, 2, 0}), homs |-> <<RandChr(x), RandChr(x)>>,
+                 gnm |-> IF Haps = 2 THEN R({"", "", "", "", "", "X", "W", "Z"}) ELSE ""]
 RandPlan(x) == [chrs |-> [c \in 1..R(1..MaxChr) |-> RandGroup(c)], nunplaced |-> R({0, 1, 2, 3}), unpl |-> <<R({10, 20}), R({10, 20}), R({10, 20})>>,
                 unplmapped |-> <<R(BOOLEAN), R(BOOLEAN), R(BOOLEAN)>>]
 
@@ -35,7 +37,8 @@ Init == plan \in {RandPlan(x) : x \in 1..NScen}
 Next == FALSE /\ UNCHANGED plan
 
 \* ------------------------------------------------------------------ deterministic rendering of a plan
-HapName(h) == IF Haps = 1 THEN "" ELSE IF h = 1 THEN "HAP1" ELSE "HAP2"
+\* FirstHap = "HAP2": the haplotype that comes first in the map (and decides the ranking) is the one whose name sorts later
+HapName(h) == IF Haps = 1 THEN "" ELSE IF (h = 1) = (FirstHap = "HAP1") THEN "HAP1" ELSE "HAP2"
 UnitName(h, sid) == (IF Haps = 1 THEN "" ELSE HapName(h) \o "_") \o "SCAFFOLD_" \o ToString(sid)
 \* the units of one chromosome in plan order: main, unlocs, haplotigs; each [role, len]
 ChrUnits(ch) == <<[role |-> "main", len |-> ch.L]>> \o [q \in 1..ch.nunl |-> [role |-> "unloc", len |-> ch.unl[q]]]
@@ -44,7 +47,8 @@ ChrUnits(ch) == <<[role |-> "main", len |-> ch.L]>> \o [q \in 1..ch.nunl |-> [ro
 Shuffled(perm, k) == LET pos(u) == CHOOSE p \in 1..5 : perm[p] = u
                      IN SortSeq([u \in 1..k |-> u], LAMBDA a, b : pos(a) < pos(b))
 \* name tags: a tag already used by an earlier chromosome is dropped
-NameTagOf(c) == LET t == plan.chrs[c].first.nm IN IF t = "" \/ \E d \in 1..(c - 1) : plan.chrs[d].first.nm = t THEN "" ELSE t
+TagDraw(c) == IF Haps = 1 THEN plan.chrs[c].first.nm ELSE plan.chrs[c].gnm
+NameTagOf(c) == LET t == TagDraw(c) IN IF t = "" \/ \E d \in 1..(c - 1) : TagDraw(d) = t THEN "" ELSE t
 
 \* flatten: acc = [sid, input, groups]; a group = [chr, hap, painted, nm, singleton, pieces |-> <<[src, len, st, role, tags]>>]
 AddChr(acc, c, h, ch, nm, singleton) ==
@@ -61,9 +65,11 @@ AddChr(acc, c, h, ch, nm, singleton) ==
       groups |-> Append(acc.groups, [chr |-> c, hap |-> h, painted |-> 1, nm |-> nm, pieces |-> pieces])]
 AddGroup(acc, c) ==
   LET g == plan.chrs[c]
-      a1 == AddChr(acc, c, 1, g.first, NameTagOf(c), Haps = 2 /\ g.nhom = 0)
-      a2 == IF g.nhom >= 1 THEN AddChr(a1, c, 2, g.homs[1], "", FALSE) ELSE a1
-      a3 == IF g.nhom >= 2 THEN AddChr(a2, c, 2, g.homs[2], "", FALSE) ELSE a2
+      nm == NameTagOf(c)
+      nh == IF nm # "" /\ g.nhom > 1 THEN 1 ELSE g.nhom        \* a name-tagged chromosome has at most one homologue (names are unique per assembly)
+      a1 == AddChr(acc, c, 1, g.first, nm, Haps = 2 /\ nh = 0)
+      a2 == IF nh >= 1 THEN AddChr(a1, c, 2, g.homs[1], nm, FALSE) ELSE a1
+      a3 == IF nh >= 2 THEN AddChr(a2, c, 2, g.homs[2], "", FALSE) ELSE a2
   IN a3
 AddUnplaced(acc, q) ==
   LET h == IF Haps = 2 /\ q % 2 = 0 THEN 2 ELSE 1   nm == UnitName(h, acc.sid + 1) IN
